@@ -150,7 +150,10 @@ fn apply(dir: &Path, d: &Damage, last_enacted: u64, touched: &mut bool) -> std::
 			if p != dir.join(logs.last().unwrap()) {
 				// the record id in the header of a non-last pending file is the replay anchor:
 				// damaging it is the known finding (file effectively missing)
-				off = off.max(9).min(len.saturating_sub(1));
+				if len <= 9 {
+					return Ok(())
+				}
+				off = off.max(9).min(len - 1);
 			}
 			let file = std::fs::OpenOptions::new().read(true).write(true).open(&p)?;
 			let mut b = [0u8; 1];
@@ -166,7 +169,10 @@ fn apply(dir: &Path, d: &Damage, last_enacted: u64, touched: &mut bool) -> std::
 			let len = std::fs::metadata(&p)?.len();
 			let mut off = (len as u128 * *o as u128 >> 16) as u64;
 			if p != dir.join(logs.last().unwrap()) {
-				off = off.max(9).min(len.saturating_sub(1));
+				if len <= 9 {
+					return Ok(())
+				}
+				off = off.max(9).min(len - 1);
 			}
 			let n = (*l as u64).min(len - off) as usize;
 			let mut buf = vec![0u8; n];
